@@ -111,9 +111,9 @@ CALL_FACTS = {
     ("_add_new_children_to_cell", None): (True, True, False,
                                           "HalfSpace._add_new_children_to_cell: a loop of collection appends; a later "
                                           "append can raise NumberConflictError after earlier ones were done"),
-    ("_generate_default_node", None): (False, False, False,
-                                       "MCNP_Object._generate_default_node(str, <str>): builds a fresh ValueNode from "
-                                       "str(value) with type str: no conversion that can fail, touches no existing object"),
+    ("_generate_default_node", None): (True, False, False,
+                                       "MCNP_Object._generate_default_node(str, value): builds a fresh ValueNode from "
+                                       "str(value): touches no existing object, but str() of an arbitrary object can raise"),
     ("_generate_default_cell_tree", None): (False, True, False,
                                             "Importance._generate_default_cell_tree(particle): builds fresh nodes for a "
                                             "Particle already validated, stores them in self._tree / _particle_importances"),
@@ -688,6 +688,13 @@ class Translator:
             # constructor through a module: mcnp_input.Title(...), thermal_scattering.ThermalScatteringLaw(...)
             if m in CTOR_FACTS or (m in self.ix.classes and m[0].isupper()):
                 return out + self.ctor(ctx, m, e, stmt_node, absorb)
+            if m == "_generate_default_node" and len(e.args) >= 2 and _is_name(e.args[0], "str") and _is_name(e.args[1], ctx.primary):
+                # MCNP_Object._generate_default_node(str, arg): ValueNode(str(arg), str) unless arg is None — what can
+                # fail is str(arg), and not when arg is a str: the conversion statement of the IR says exactly that
+                self.notes.append((f"{ctx.cls}.{ctx.qual}", "_generate_default_node(str, <argument>) is the guarded conversion "
+                                                             "str(<argument>); it builds a fresh node and touches no existing object"))
+                out.append(self.mk(ctx, "convert", stmt_node, t="str", guarded=True, none_guard=True))
+                return out
             fact = CALL_FACTS.get((m, recv)) or CALL_FACTS.get((m, None))
             fact = self.conditional_fact(ctx, e, m, recv, fact)
             # pure look-ups on plain containers held by self
@@ -748,6 +755,10 @@ class Translator:
                         "(two_phase): it raises before it changes anything; the extends that follow add objects whose "
                         "numbers were just checked against the collection and against each other")
             return fact
+        if m == "_generate_default_node" and (ctx.cls, ctx.qual) == ("ThermalScatteringLaw", "thermal_scattering_laws.setter"):
+            return (False, False, False,
+                    "MCNP_Object._generate_default_node(str, law) with `law` one of the elements the loop above checked to be "
+                    "a str: str(law) cannot fail, a fresh ValueNode is built, no existing object is touched")
         if m == "extend" and recv == "self.cells" and len(e.args) == 1 and isinstance(e.args[0], ast.Name) \
                 and e.args[0].id in ctx.validated and ctx.last_effect == "self.cells.clear":
             return (False, True, False,
